@@ -9,6 +9,7 @@ package main
 // Heap components use the same trees with every leaf wrapped in (Array Ref .).
 
 import (
+	"regexp"
 	"fmt"
 	"go/types"
 	"strings"
@@ -64,8 +65,17 @@ const (
 
 const packedMaxBytes = 64
 
+var aliasRe = regexp.MustCompile(`\b(byte|rune)\b`)
+
 func typeKey(t types.Type) string {
 	s := types.TypeString(t, func(p *types.Package) string { return p.Name() })
+	// byte and rune are aliases: []byte and []uint8 share their memory component
+	s = aliasRe.ReplaceAllStringFunc(s, func(m string) string {
+		if m == "byte" {
+			return "uint8"
+		}
+		return "int32"
+	})
 	r := strings.NewReplacer("*", "P", "[", "_", "]", "_", ".", "_", " ", "", "{", "_", "}", "_", ";", "_", "(", "_", ")", "_", ",", "_", "/", "_", "$", "_")
 	return r.Replace(s)
 }
